@@ -139,4 +139,41 @@ CHECKS = {
         quick=dict(tests=[dict(name="TestC06", cases=1600)]),
         thorough=dict(tests=[dict(name="TestC06", cases=16000)]),
     ),
+    "C05": dict(
+        level="exploration",
+        rule=("Inputs: a journal from the history generator (accepted, or rejected after 1-2 damages; never two prices for one pair on one day) as a single file, and a "
+              "variant of it: directives permuted and/or dealt over an include tree of 1-7 files (depth<=4, nested directories, ../ paths), run on the verif build with a drawn "
+              "schedule perturbation seed and GOMAXPROCS in {1,2,16}. Oracle (metamorphic): check, print and 1-3 balance invocations with drawn flags (all families, valued when prices exist) "
+              "have the same accept/reject verdict on both; balance stdout is byte-identical; print stdout, read by the harness's own reader, is in (date, kind) order on both sides and "
+              "equal as a multiset per (date, kind) group. Non-trivial: the variant moves >=2 directives to a position with another date or kind, or uses >=3 files with nesting depth >=2."),
+        assumptions=["which diagnostic a rejected journal gets is not compared (only that both are rejected)"],
+        quick=dict(tests=[dict(name="TestC05", cases=1600)]),
+        thorough=dict(tests=[dict(name="TestC05", cases=32000)]),
+    ),
+    "C09": dict(
+        level="exploration",
+        rule=("Inputs: accepted journals from the history generator with negative and zero amounts, non-canonical numbers (trailing/leading zeros), accruals, @performance "
+              "(incl. empty target list), multi-balance assertions and several assertions per day, Unicode names, multi-line descriptions, price forests; optionally shuffled. "
+              "Oracle (round trip): P1 = knut print J exits 0; knut check P1 exits 0; knut print P1 == P1 byte for byte; for 1-3 drawn balance flag sets (all families, valued "
+              "when prices exist) knut balance J == knut balance P1 byte for byte (and same exit status). Non-trivial: J has >=1 special feature and P1 != J; distinct by (journal, flags)."),
+        assumptions=["balance output is deterministic (C06)"],
+        quick=dict(tests=[dict(name="TestC09", cases=1600)]),
+        thorough=dict(tests=[dict(name="TestC09", cases=32000)]),
+    ),
+    "C17": dict(
+        level="exploration",
+        rule=("Inputs (library): tables built through lib/common/table's public API (column groups incl. the balance shapes 1+1+n and 1+n, separator/blank/short rows "
+              "completed with FillEmpty, left/right/centre and indented text incl. multi-byte, combining and 4-byte runes, commas and quotes) with amounts over "
+              "sign x 1e-8..1e15 x rounding boundaries of the displayed value (x.5, x.49, x.51, 999.5, 999999.5, carries into a new thousands group, values rounding to zero) "
+              "x up to 18 decimals x four coefficient/exponent representations, Round 0..8, Thousands on/off. Inputs (CLI): accepted journals of the history generator "
+              "(<=30 actions, <=8 decimals, unicode names) plus 0-4 own bookings with amounts on the rounding boundaries of the drawn flags x --digits absent/0..8 x -k x -a x --diff x interval flags. "
+              "Oracle: every line has the same rune width and its column separators ('+' in separator lines, '|' elsewhere) sit at the same rune offsets; each numeric text cell "
+              "equals the independent formatter (exact big.Rat round-half-away of amount or amount/1000, exactly n decimals, groups of three from the decimal point, minus sign), "
+              "zero amounts blank, non-zero amounts rounding to zero must show 0.00 (or -0.00 if negative), not blank; CSV fields are plain decimals equal to the exact amount, text and "
+              "empty cells verbatim, same (row, column) once blank and separator rows are dropped. CLI: text cells = reference rounding of the CSV cells at the same position, "
+              "labels and header equal. Non-trivial: >=2 numeric columns of different natural width and a value that is grouped or sits exactly on a rounding boundary."),
+        assumptions=["width is counted in runes (not terminal cells), as the property's anchors state"],
+        quick=dict(tests=[dict(name="TestC17", cases=24000), dict(name="TestC17CLI", cases=800)]),
+        thorough=dict(tests=[dict(name="TestC17", cases=320000), dict(name="TestC17CLI", cases=8000)]),
+    ),
 }
